@@ -23,7 +23,7 @@ func init() { register(c19{}) }
 
 func (c19) ID() string { return "C19" }
 
-var c19Variants = [][]string{{"go"}, {"go", "-o"}, {"go", "-u"}, {"typescript"}}
+var c19Variants = [][]string{{"go"}, {"go", "-o"}, {"go", "-u"}, {"typescript"}, {"go", "-d"}, {"go", "-o", "-u", "-g", "graph.png"}}
 
 var c19Kinds = []string{
 	"lexical: bad character", "lexical: unterminated comment", "lexical: unterminated action", "lexical: unterminated %union",
